@@ -166,7 +166,36 @@ def c09_shapes(tier):
     out += [(2, 0, 2, 4), (0, 1, 2, 3), (4, 1, 2, 2), (1, 0, 2, 5), (3, 1, 2, 1)]
     return out
 
+def c08_shapes(tier):
+    # (q, cold factor, period, lemma)
+    out = []
+    if tier == 'quick':
+        for q, c, p in [(30, 3, 1), (100, 2, 1), (60, 0, 2), (30, 6, 5)]:
+            out += [(q, c, p, l) for l in (1, 2, 3, 4)]
+        return out
+    for q in (30, 100, 500):
+        for c in (0, 2, 3, 6):
+            for p in (1, 5, 20):
+                ce = 3 if c <= 1 else c
+                span = 2 * p * q // (ce + 1)
+                if span * (2 * p + 3) <= 60000 and q >= 10 * ce:
+                    out += [(q, c, p, l) for l in (1, 2, 3, 4)]
+    return out
+
 PROPS = {
+    'C08': {
+        'level': 'model_checking',
+        'bounds': 'inductive steps of the real warm-up calculator from an arbitrary state: stored tokens in [0, max_token], one time step of 0..2p+2 s (idle lemma: 2p..5p s) at any millisecond phase, '
+                  'previous-interval pass count in [0, q]; (q, cold factor, period) concrete per shape: quick {(30,3,1),(100,2,1),(60,default,2),(30,6,5)}, thorough all of q in {30,100,500} x c in {default,2,3,6} x p in {1,5,20} '
+                  'with q >= 10c whose token range stays enumerable; trajectory claims (ramp within 2p+2 s) follow from the lemmas by the ranking argument in DESIGN.md, not from a solver run',
+        'assumptions': ['the calculator is wired to a controller like the built-in generator does, with a harness ReadStat supplying the previous-interval pass count', 'state set/read through the verif_state hooks',
+                        'float results compared with 1e-9 relative tolerance (the implementation nudges by one ulp)',
+                        'stored tokens above the warning line and the elapsed seconds enter non-exact float arithmetic and are therefore enumerated by the solver (every feasible value is a path)'],
+        'scenarios': [
+            {'name': 'c08_warmup', 'shapes': {'quick': c08_shapes('quick'), 'thorough': c08_shapes('thorough')}, 'concretize_cap': 8000,
+             'witnesses': ['same-second', 'new-second', 'warm', 'cold', 'ramping', 'idle'], 'selftest': {'quick': 12, 'thorough': 60}},
+        ],
+    },
     'C09': {
         'level': 'model_checking',
         'bounds': 'all five metric types x both strategies, 1-2 rules; thresholds symbolic in quarters in [0,4] (CPU: [0,100]); injected load in quarters in [0,1], CPU in {0,25,50,75,100}; '
